@@ -1,6 +1,7 @@
 package main
 
 import (
+	"time"
 	"encoding/json"
 	"fmt"
 	"math"
@@ -28,19 +29,33 @@ type decodeOutcome struct {
 	tms      *tms20.TileMatrixSet
 }
 
+// decodeDoc decodes under recover and a five-second limit: a decoder that never returns (a worker waiting on a channel nobody reads) is reported
+// like a panic, with the document
 func decodeDoc(b []byte) (o decodeOutcome) {
-	defer func() {
-		if r := recover(); r != nil {
-			o.panicMsg = fmt.Sprint(r)
+	ch := make(chan decodeOutcome, 1)
+	mark("tmsdoc " + clip(string(b), 1500))
+	go func() {
+		var r decodeOutcome
+		defer func() {
+			if rec := recover(); rec != nil {
+				r.panicMsg = fmt.Sprint(rec)
+			}
+			ch <- r
+		}()
+		var t tms20.TileMatrixSet
+		if err := json.Unmarshal(b, &t); err != nil {
+			r.err = err
+			return
 		}
+		r.tms = &t
 	}()
-	var t tms20.TileMatrixSet
-	if err := json.Unmarshal(b, &t); err != nil {
-		o.err = err
-		return
+	select {
+	case o = <-ch:
+	case <-time.After(5 * time.Second):
+		o.panicMsg = "the decoder has not returned after 5 seconds (deadlock or endless loop)"
 	}
-	o.tms = &t
-	return
+	unmark()
+	return o
 }
 
 func encodeDoc(t *tms20.TileMatrixSet) (b []byte, p string) {
@@ -481,6 +496,22 @@ func checkC16(e *env) {
 			}
 			if len(desc) > 0 && e.rng.Intn(2) == 0 {
 				depth = 0
+			}
+		}
+		// a tie: one tile matrix takes the scale denominator or the cell size of its neighbour (nothing may be ordered by a value that need not be unique)
+		if m, ok := tree.(map[string]interface{}); ok && e.rng.Intn(10) == 0 {
+			if l, ok := m["tileMatrices"].([]interface{}); ok && len(l) >= 2 {
+				k := e.rng.Intn(len(l) - 1)
+				key := []string{"scaleDenominator", "cellSize"}[e.rng.Intn(2)]
+				if a, ok := l[k].(map[string]interface{}); ok {
+					if b, ok := l[k+1].(map[string]interface{}); ok {
+						a[key] = b[key]
+						desc = append(desc, fmt.Sprintf("tileMatrices.%d.%s := tileMatrices.%d.%s", k, key, k+1, key))
+						if e.rng.Intn(2) == 0 {
+							depth = 0
+						}
+					}
+				}
 			}
 		}
 		if it%500 == 499 {
